@@ -56,8 +56,6 @@ def run(R, tier, seed, driver_ok):
     for rep in range(reps):
         d = int(rng.randint(2, 6))
         X, y = zoo.blobs(rng, d)
-        if rep % 4 == 3:
-            X = X * float(10.0 ** rng.choice([-3, 3]))          # the same data in other units
         idx, yy = zoo.pairs_from(X, y, rng, n=int(rng.randint(5, 25)))
         pairs = X[idx]
         prior_kind = ['identity', 'covariance', 'random', 'array'][rep % 4]
